@@ -18,6 +18,9 @@ The FORMULA lines evaluate the symbolic trees generated from distance.go / pured
   havf <x> <y> <real:hex32>                        -> ok | ulp=<d> model=<hex32>   haversineDistance; libm differs from Go's math: within `havUlp` = 1 float32 ulp (measured: 0)
   pqf <NS> <K> <L> <flat:words32> <x:words32> <codes:bytes>  -> hex32|nan   table build + look-up sum of DistanceFromFloat (distFn = the pure Go euclidean loop)
   pqp <NS> <K> <cdists:words32> <cx:bytes> <cy:bytes>        -> hex32|nan   look-up sum of DistanceFromPoint
+  bqw <hamming|jaccard> <thr|-> <x> <y> (words32) <fk:hex32>  -> hex32 hex32   the two distance closures of the binary quantiser as
+                                                    generated (which distance is used: bit distance of the encodings when a threshold is
+                                                    set, else the float distance, whose real value is fk); encode / hamming / jaccard generated
 word lists are concatenated fixed-width hex, `-` is the empty list.
 -/
 import SemaModel.Base.DriverUtil
@@ -25,6 +28,7 @@ import SemaModel.C20.Model
 import SemaModel.Generated.BitDist
 import SemaModel.Generated.Distance
 import SemaModel.Generated.PQDist
+import SemaModel.Generated.BQDist
 namespace Sema.C20
 open Sema Sema.Gen
 
@@ -129,6 +133,17 @@ def step (line : String) : String :=
         let pq : PQDist.productQuantizer := ⟨⟨k, ns, 0⟩, fun _ _ => .lit 0, 0, fvars cd, []⟩
         outF (PQDist.pq_lookupFromPoint pq ⟨[], cx⟩ ⟨[], cy⟩)
       | _, _, _, _, _ => bad
+  | ["bqw", m, t, x, y, fk] => match words32? t, words32? x, words32? y, words32? fk with
+      | some t, some x, some y, some [fk] =>
+        let bit := if m == "hamming" then BitDist.hammingDistance else BitDist.jaccardDistance
+        let enc := fun (bq : BQDist.binaryQuantizer) (v : List Go.FExpr) =>
+          BitDist.binaryQuantizer_encode (bq.threshold.map fun e => match e with | .var b => b | _ => 0#32) (v.map fun e => match e with | .var b => b | _ => 0#32)
+        let bq : BQDist.binaryQuantizer := ⟨fvars t, fun _ _ => .var fk, bit⟩
+        let px : BQDist.binaryQuantizedPoint := ⟨fvars x, BitDist.binaryQuantizer_encode t x⟩
+        let py : BQDist.binaryQuantizedPoint := ⟨fvars y, BitDist.binaryQuantizer_encode t y⟩
+        let asP := fun (p : BQDist.binaryQuantizedPoint) => some p
+        s!"{hexF32n (BQDist.binaryQuantizer_DistanceFromFloat asP enc bq (fvars x) py).eval} {hexF32n (BQDist.binaryQuantizer_DistanceFromPoint asP enc bq px py).eval}"
+      | _, _, _, _ => bad
   | "fdot" :: _ => "n/a"
   | "fl2" :: _ => "n/a"
   | "hav" :: _ => "n/a"
